@@ -30,13 +30,19 @@ def run_phase(ctx, res, prop, n_quick=36, n_thorough=400):
     uniq = sorted({json.dumps(p, sort_keys=True) for p in plans})
     rng.shuffle(uniq)
     chosen = [json.loads(u) for u in uniq[:ctx.pick(n_quick, n_thorough)]]
+    # start-ups that must not serve are one plan in the model (no requests follow) but many concrete
+    # environments (not onboarded, wrong mode, old app, bad PIN, pending PIN change, ...): repeat them
+    neg = [json.loads(u) for u in uniq if not json.loads(u)["should"]]
+    chosen = (neg * ctx.pick(9, 60))[:ctx.pick(9, 60)] + chosen
     traces, info = [], {}
     for i, p in enumerate(chosen):
         v1 = (i % 5 == 4)
         causes = list(p["plan"])
         if v1:
             causes = [c for c in causes]
-        ev, inf = procmgr.run_lifetime(ctx.scratch, "%s_%d" % (prop, i), p["should"], causes, v1, rng)
+        # platforms: manager_ledger (HID), manager_sgx (TCP transport, SGX bootloader commands), manager_tcp (no PIN)
+        plat = "sgx" if i % 3 == 1 else ("tcp" if (i % 9 == 2 and p["should"]) else "ledger")
+        ev, inf = procmgr.run_lifetime(ctx.scratch, "%s_%d" % (prop, i), p["should"], causes, v1, rng, plat=plat)
         tid = len(traces) + 1
         traces.append({"id": "M%d" % tid, "v1": v1, "ev": ev})
         info["M%d" % tid] = inf
@@ -59,5 +65,7 @@ def run_phase(ctx, res, prop, n_quick=36, n_thorough=400):
                       {"info": inf, "events": t["ev"]})
     res.add_validation(stats, accepted)
     res.coverage["process_lifetimes"] = len(traces)
+    res.coverage["process_lifetimes_by_platform"] = {k: sum(1 for x in info.values() if x["plat"] == k)
+                                                     for k in ("ledger", "sgx", "tcp")}
     res.coverage["process_lifetimes_that_served"] = sum(1 for t in traces if any(e["k"] == "listening" for e in t["ev"]))
     return traces
